@@ -4,6 +4,7 @@ import Vet.Model.Report
 import Vet.Model.Renew
 import Vet.Model.WF
 import Vet.Model.Publishers
+import Vet.Model.CratePolicies
 open Vet Vet.Wire
 
 structure DState where
@@ -162,6 +163,25 @@ def handle (st : DState) (kw : String) (toks : List Nat) : DState × String :=
       let t := Pub.livePublishers cs
       (st, "ok " ++ show_ (t.length :: t.flatMap (fun (n, l) =>
         n :: l.length :: l.flatMap (fun p => [p.version, p.user, p.day, b2n p.fresh]))))
+  | "policies" =>
+    -- check_crate_policies (Vet/Model/CratePolicies.lean): entries, packages, third-party names
+    let entryP : P Pol.Entry := do
+      let n ← nat
+      let v ← optNat
+      let d ← bool
+      pure ⟨n, v, d⟩
+    let pkgP : P Pol.Pkg := do
+      let n ← nat
+      let v ← nat
+      pure ⟨n, v⟩
+    match run (pair (list entryP) (pair (list pkgP) (list nat))) toks with
+    | none => (st, "bad-case")
+    | some (es, (ps, tp)) =>
+      let errs := Pol.checkImpl es ps (fun n => tp.contains n)
+      (st, "ok " ++ show_ (errs.length :: errs.flatMap (fun e =>
+        match e with
+        | .needsVersion n v => [0, n, v + 1]
+        | .unused n v => [1, n, optKey v])))
   | "cmdmode" =>
     -- the mode a command hands to the updater for crate `name` (Vet/Model/Commands.lean)
     match toks with
